@@ -19,6 +19,12 @@ import (
 
 type externalFn func(fr *frame, args []value) value
 
+// fallThrough is returned by an intrinsic that wants the function's SSA body
+// to be interpreted instead.
+type fallThroughT struct{}
+
+var fallThrough value = fallThroughT{}
+
 var nativeFuncs = map[string]interface{}{
 	"strings.TrimSpace":     strings.TrimSpace,
 	"strings.TrimLeft":      strings.TrimLeft,
@@ -229,6 +235,9 @@ func concreteOr(name string, sym externalFn) externalFn {
 			}
 		}
 		if sym == nil {
+			if fr.fn != nil && fr.fn.Blocks != nil {
+				return fallThrough // interpret the function's own body on symbolic arguments
+			}
 			fr.ex().unsupported(name + " on symbolic arguments")
 		}
 		return sym(fr, args)
@@ -324,26 +333,35 @@ func symTrimSpace(fr *frame, args []value) value {
 	return mkStr(bs[start:stop])
 }
 
-func asciiCutset(ex *Exec, v value, what string) string {
-	s, ok := v.(string)
-	if !ok {
-		ex.unsupported(what + " with symbolic cutset")
-	}
-	for i := 0; i < len(s); i++ {
-		if s[i] >= 0x80 {
-			ex.unsupported(what + " with non-ASCII cutset")
+// cutsetCond returns the predicate "byte b is in the cut set" for a concrete
+// or symbolic ASCII cut set (rune-based cut sets are outside the encoding).
+func cutsetCond(ex *Exec, v value, what string) func(b *Term) *Term {
+	ts := ex.ts
+	cs := strBytes(ts, v)
+	if s, ok := v.(string); ok {
+		for i := 0; i < len(s); i++ {
+			if s[i] >= 0x80 {
+				ex.unsupported(what + " with non-ASCII cutset")
+			}
 		}
+	} else {
+		requireASCII(ex, cs, what+" cutset")
 	}
-	return s
+	return func(b *Term) *Term {
+		alts := make([]*Term, len(cs))
+		for i, c := range cs {
+			alts[i] = ts.Eq(b, c)
+		}
+		return ts.Or(alts...)
+	}
 }
 
 func symTrimLeft(fr *frame, args []value) value {
 	ex := fr.ex()
-	ts := ex.ts
-	bs := strBytes(ts, args[0])
-	cut := asciiCutset(ex, args[1], "strings.TrimLeft")
+	bs := strBytes(ex.ts, args[0])
+	in := cutsetCond(ex, args[1], "strings.TrimLeft")
 	start := 0
-	for start < len(bs) && ex.branch(byteIn(ts, bs[start], cut)) {
+	for start < len(bs) && ex.branch(in(bs[start])) {
 		start++
 	}
 	return mkStr(bs[start:])
@@ -351,11 +369,10 @@ func symTrimLeft(fr *frame, args []value) value {
 
 func symTrimRight(fr *frame, args []value) value {
 	ex := fr.ex()
-	ts := ex.ts
-	bs := strBytes(ts, args[0])
-	cut := asciiCutset(ex, args[1], "strings.TrimRight")
+	bs := strBytes(ex.ts, args[0])
+	in := cutsetCond(ex, args[1], "strings.TrimRight")
 	stop := len(bs)
-	for stop > 0 && ex.branch(byteIn(ts, bs[stop-1], cut)) {
+	for stop > 0 && ex.branch(in(bs[stop-1])) {
 		stop--
 	}
 	return mkStr(bs[:stop])
